@@ -158,7 +158,8 @@ class WebSocketCodec(BaseComponent):
                 # check for Ping
                 elif opcode == 9:
                     if self._close_sent:
-                        return None
+                        # no more frames after our close frame
+                        continue
                     frame = bytearray(b'\x8a')
                     frame += self._encode_tail(msg, self._sock is None)
                     self._write(frame)
